@@ -14,8 +14,9 @@ EXTENDS Grid, FlowContract, Json, IOUtils
 ASSUME TLCSet(7, ndJsonDeserialize(IOEnv.TRACE))
 Log == TLCGet(7)
 Diag == IOEnv.DIAG = "1"
-Has(c) == CASE c = "C07" -> IOEnv.CHK_C07 = "1" [] c = "C04" -> IOEnv.CHK_C04 = "1" [] c = "C10" -> IOEnv.CHK_C10 = "1" [] OTHER -> FALSE
-Chk(name, line, val) == IF Diag THEN (IF val THEN TRUE ELSE PrintT(<<"FAILED", name, "line", line>>)) ELSE val
+Has(c) == CASE c = "C07" -> IOEnv.CHK_C07 = "1" [] c = "C04" -> IOEnv.CHK_C04 = "1" [] c = "C10" -> IOEnv.CHK_C10 = "1"
+            [] c = "C02" -> IOEnv.CHK_C02 = "1" [] c = "C01" -> IOEnv.CHK_C01 = "1" [] OTHER -> FALSE
+Chk(name, line, val) == IF Diag THEN (IF val THEN TRUE ELSE PrintT(<<"FAILED", name, "line", line>>)) ELSE (val = TRUE)
 
 VARIABLES l, bd, bf        \* position, descriptor, field formula
 bvars == <<l, bd, bf>>
@@ -65,8 +66,33 @@ TBigRoute ==
           /\ Chk("MACHINERY.FieldFormula", l, \A k \in DOMAIN E.smp : E.smp[k].z = ZOf(d, bf, E.smp[k].i))
   /\ UNCHANGED <<bd, bf>> /\ Adv
 
+\* "comb lake" (rook raster, all borders fixed value = base levels at level B): a spine (row 1) and the odd
+\* columns at the floor L < B, the even columns walls at W > B: one closed depression whose spill level is B
+\* at every floor node (each touches the border through floor nodes only) and the wall's own level on walls.
+\* BigFill: sampled nodes after update_routes of [pflood, single]; uz / ub = number of representable values
+\* the returned elevation lies above the input / above B (FlowContract!C02Level: Spill <= out <= Spill + n)
+ZComb(d, f, i) == LET r == i \div d.nc   c == i % d.nc IN
+                  IF r = 0 \/ r = d.nr - 1 \/ c = 0 \/ c = d.nc - 1 THEN f.B
+                  ELSE IF r = 1 \/ c % 2 = 1 THEN f.L ELSE f.W
+TBigFill ==
+  /\ Is("BigFill") /\ bd # None
+  /\ LET d == bd
+         n == Size(d)
+         f == E.comb
+         border(i) == LET r == i \div d.nc   c == i % d.nc IN r = 0 \/ r = d.nr - 1 \/ c = 0 \/ c = d.nc - 1
+     IN /\ Chk("MACHINERY.CombWorld", l, d.t = "raster" /\ d.conn = "rook" /\ d.bs = <<1, 1, 1, 1>> /\ f.L < f.B /\ f.B < f.W /\ f.L > 0)
+        /\ Chk("MACHINERY.FieldFormula", l, \A k \in DOMAIN E.smp : E.smp[k].i \in Nodes(d) /\ E.smp[k].z = ZComb(d, f, E.smp[k].i))
+        /\ Has("C02") =>
+             /\ Chk("C02.Fixed", l, \A k \in DOMAIN E.smp : border(E.smp[k].i) => E.smp[k].same = 1)
+             /\ Chk("C02.NotBelow", l, \A k \in DOMAIN E.smp : E.smp[k].fin = 1 /\ E.smp[k].uz >= 0)
+             /\ Chk("C02.Level", l, \A k \in DOMAIN E.smp : ~border(E.smp[k].i) =>
+                        IF E.smp[k].z >= f.B THEN E.smp[k].uz \in 0..n ELSE E.smp[k].ub \in 0..n)
+        \* after [pflood, single] every floor node drains: it is not its own receiver
+        /\ Has("C01") => Chk("C01.Reaches", l, \A k \in DOMAIN E.smp : (~border(E.smp[k].i) /\ E.smp[k].z < f.B) => E.smp[k].self = 0)
+  /\ UNCHANGED <<bd, bf>> /\ Adv
+
 BInit == l = 1 /\ bd = None /\ bf = None
-BNext == TReset \/ TBigGrid \/ TBigQ \/ TBigRoute
+BNext == TReset \/ TBigGrid \/ TBigQ \/ TBigRoute \/ TBigFill
 BSpec == BInit /\ [][BNext]_bvars
 BAccepted == IF TLCGet("stats").diameter - 1 = Len(Log) THEN TRUE
              ELSE PrintT(<<"REJECTED at line", TLCGet("stats").diameter, "of", Len(Log)>>) /\ FALSE
